@@ -29,12 +29,22 @@ MetConfigs ==
      year |-> st[1], jjj |-> st[2], hour |-> st[3], h24 |-> FALSE] :
       f \in MetFmts, g \in { <<1, 1, 1>>, <<2, 1, 2>>, <<2, 2, 1>>, <<3, 2, 2>>, <<1, 2, 3>> },
       nt \in 1..3, st \in { <<1999, 365, 22>>, <<2000, 59, 23>>, <<2011, 1, 0>> } }
-AllConfigs == CASE IOEnv.PNC_CAMX_FAMILY = "met" -> MetConfigs [] OTHER -> {x \in Configs : TimesExpressible(x)}
+\* large files (truncation of realistic sizes): compact emission, no cut enumeration
+BigConfigs ==
+  { [fmt |-> "uamiv", name |-> <<"A","V","E","R","A","G","E">>, note |-> <<"b","i","g">>, itzon |-> 0,
+     spc |-> << <<"N","O">>, <<"N","O","2">>, <<"O","3">>, <<"C","O">> >>,
+     nx |-> 100, ny |-> 100, nz |-> 3, nt |-> 2, year |-> 2011, jjj |-> 182, hour |-> 5,
+     plon |-> -97, plat |-> 40, iutm |-> 0, xorg |-> -2736, yorg |-> -2088, delx |-> 36, dely |-> 36,
+     iproj |-> 2, istag |-> 0, tlat1 |-> 33, tlat2 |-> 45, h24 |-> FALSE] }
+Big == IOEnv.PNC_CAMX_FAMILY = "big"
+AllConfigs == CASE IOEnv.PNC_CAMX_FAMILY = "met" -> MetConfigs
+                [] Big -> BigConfigs
+                [] OTHER -> {x \in Configs : TimesExpressible(x)}
 
 VARIABLES c, n
 vars == <<c, n>>
 Init == c \in AllConfigs /\ n = 0
-Next == n < FileBytes(c) /\ n' = n + 1 /\ c' = c
+Next == ~Big /\ n < FileBytes(c) /\ n' = n + 1 /\ c' = c
 Spec == Init /\ [][Next]_vars
 
 \* ---- the memory-mapped uamiv reader's decision procedure on the first n bytes
@@ -46,12 +56,18 @@ UamivOpen(cc, nn) ==
   ELSE IF nn = HeaderBytes(cc) THEN [k |-> "Err", n |-> 0]         \* nothing to map
   ELSE [k |-> "Steps", n |-> (nn - HeaderBytes(cc)) \div BlockBytes(cc)]
 
-NeverFabricates == c.fmt = "uamiv" => LET o == UamivOpen(c, n) IN o.k = "Steps" => o.n <= CompleteSteps(c, n)
-FullFileReadsAll == (c.fmt = "uamiv" /\ n = FileBytes(c)) => UamivOpen(c, n) = [k |-> "Steps", n |-> c.nt]
-Tiles == FileBytes(c) = HeaderBytes(c) + c.nt * BlockBytes(c)
+NeverFabricates == (c.fmt = "uamiv" /\ ~Big) => LET o == UamivOpen(c, n) IN o.k = "Steps" => o.n <= CompleteSteps(c, n)
+FullFileReadsAll == (c.fmt = "uamiv" /\ ~Big /\ n = FileBytes(c)) => UamivOpen(c, n) = [k |-> "Steps", n |-> c.nt]
+Tiles == Big \/ FileBytes(c) = HeaderBytes(c) + c.nt * BlockBytes(c)
+\* the closed-form sizes agree with the grammar
+AnalyticSizes == (c.fmt = "uamiv" /\ ~Big /\ n = 0) =>
+  /\ UamivHeaderBytesA(c) = HeaderBytes(c) /\ UamivBlockBytesA(c) = BlockBytes(c) /\ UamivFileBytesA(c) = FileBytes(c)
 EmitConstraint ==
   IF IOEnv.PNC_EMIT = "1" /\ n = 0
-  THEN PrintT(ToJson([cfg |-> c, recs |-> Concrete(c), bytes |-> FileBytes(c),
-                      header |-> HeaderBytes(c), block |-> BlockBytes(c)]))
+  THEN IF Big
+       THEN PrintT(ToJson([cfg |-> c, recs |-> ConcreteC(c), bytes |-> UamivFileBytesA(c),
+                           header |-> UamivHeaderBytesA(c), block |-> UamivBlockBytesA(c)]))
+       ELSE PrintT(ToJson([cfg |-> c, recs |-> Concrete(c), bytes |-> FileBytes(c),
+                           header |-> HeaderBytes(c), block |-> BlockBytes(c)]))
   ELSE TRUE
 =================================================================================
